@@ -58,6 +58,8 @@ type hctx struct {
 	tt  *termTable
 	cfg cfgFlags
 	pcfg pcfgFlags
+	// scenarios in which the real Processor diverged from the model only after a subprocessor ended
+	postFinalization []map[string]any
 	// driverBroken is set after the first driver failure: the sections keep running their
 	// oracles on the real code, without correspondence.
 	driverBroken bool
@@ -209,7 +211,7 @@ func main() {
 		name string
 		run  func(*hctx, *lib.RNG)
 	}{{"padding", secPadding}, {"merkle", secMerkle}, {"rs", secRS}, {"e2e", secE2E}, {"sched", secSched}, {"validator", secValidator},
-		{"wire", secWire}, {"processor", secProcessor}} {
+		{"wire", secWire}, {"timecache", secTimecache}, {"processor", secProcessor}} {
 		t0 := time.Now()
 		sec.run(h, r.Fork(uint64(i+1)))
 		h.flush()
@@ -247,6 +249,8 @@ func runReplay(h *hctx, path string) {
 	case "pad":
 		b, _ := unhx(str(rp["msg"]))
 		padCase(h, b, num(rp["k"]))
+	case "timecache":
+		secTimecache(h, lib.NewRNG(1))
 	case "wire":
 		b, _ := unhx(str(rp["proto"]))
 		var pu pb.PropellerUnit
